@@ -254,16 +254,24 @@ def rand_weights(rng, n):
         w = [rng.randint(0, 3) for _ in range(n)]
         if sum(w) == 0:
             w[rng.randrange(n)] = 1
+    # restart weights need not be integers nor sum to at least 1: the same weights in smaller units (dyadic: exact in floating point)
+    if rng.random() < 0.3:
+        u = F(1, rng.choice([4, 8, 16, 64, 1024]))
+        w = [x * u for x in w]
     return w
+
+
+def _fl(v):
+    return float(v) if isinstance(v, Fraction) else v
 
 
 def seed_form(rng, w, form):
     """form in array | dict. Returns (implementation argument, Coq literal of `option seedsrc`)."""
     if form == 'array':
-        return {'array': w}, '(Some (SArray %s))' % clist(w, cq)
+        return {'array': [_fl(v) for v in w]}, '(Some (SArray %s))' % clist(w, cq)
     items = [(k, v) for k, v in enumerate(w) if v > 0 or rng.random() < 0.2]
     rng.shuffle(items)
-    return {'dict': [[k, v] for k, v in items]}, '(Some (SDict %s))' % clist(items, lambda e: '(%d, %s)' % (e[0], cq(e[1])))
+    return {'dict': [[k, _fl(v)] for k, v in items]}, '(Some (SDict %s))' % clist(items, lambda e: '(%d, %s)' % (e[0], cq(e[1])))
 
 
 def make_restart(rng, n_row, n_col, bipartite, form):
